@@ -21,6 +21,20 @@ ROUND1 = {  # verdict of the checks as they stood when the change was first eval
  "C17-1": ("caught", "C17.R1 (undecided emission) + C17.R2 floor"), "C17-2": ("caught", "C17.R3"),
  "C18-1": ("caught", "C18.R3, C18.R5"), "C18-2": ("caught", "C18.R3"), "C19-1": ("missed", ""), "C19-2": ("caught", "C19.R1"),
  "C20-1": ("caught", "C20.R2"), "C20-2": ("missed", ""),
+ # ---- second batch (first evaluated against the checks as strengthened after the first batch)
+ "R2-C01-1": ("caught", "C01.R3"), "R2-C01-2": ("caught", "C01.R4"), "R2-C02-1": ("caught", "C02.R1, C02.R5"), "R2-C02-2": ("caught", "C02.R4"),
+ "R2-C03-1": ("missed", ""), "R2-C03-2": ("missed", ""), "R2-C04-1": ("missed", ""), "R2-C04-2": ("caught", "C04.R1"),
+ "R2-C05-1": ("missed", ""), "R2-C05-2": ("caught", "C05.R1 (undecided header layout)"),
+ "R2-C06-1": ("caught by accident", "C06.R4 (`json.Marshal is not called` — the Encoder form reports the same errors; the real defect is the pooled buffer)"),
+ "R2-C06-2": ("caught", "C06.R3"), "R2-C07-1": ("caught", "C07.R2"), "R2-C07-2": ("missed", "(C05.R1 reports it, but the change was filed under C07)"),
+ "R2-C08-1": ("missed", ""), "R2-C08-2": ("missed", ""), "R2-C09-1": ("missed", ""), "R2-C09-2": ("missed", ""),
+ "R2-C10-1": ("caught", "C10.R1a"), "R2-C10-2": ("caught", "C10.R4"), "R2-C11-1": ("caught", "C11.R4"), "R2-C11-2": ("caught", "C11.R3, C11.R6"),
+ "R2-C12-1": ("missed", ""), "R2-C12-2": ("missed", ""), "R2-C13-1": ("missed", ""), "R2-C13-2": ("caught", "C13.R2"),
+ "R2-C14-1": ("missed", "(C01.R2 reports it, but the change was filed under C14)"), "R2-C14-2": ("caught", "C14.R2"),
+ "R2-C15-1": ("missed", ""), "R2-C15-2": ("missed", ""), "R2-C16-1": ("missed", ""), "R2-C16-2": ("caught", "C16.R2"),
+ "R2-C17-1": ("caught", "C17.R1"), "R2-C17-2": ("caught", "C17.R1 (undecided emission)"),
+ "R2-C18-1": ("missed", ""), "R2-C18-2": ("missed", ""), "R2-C19-1": ("missed", ""), "R2-C19-2": ("missed", ""),
+ "R2-C20-1": ("missed", ""), "R2-C20-2": ("missed", ""),
 }
 STRENGTHENED = {
  "C01-1": "C01.R4 now covers Difference/Union/XOr/Intersection of *Bounds with an opaque polygon and answers every shape query (Within, point-in-polygon) in every possible way: a shortcut result must follow from the box relation alone",
@@ -44,7 +58,33 @@ STRENGTHENED = {
  "C19-1": "C19.R2: every value the heuristic returns is 0, the straight-line distance (Distance option) or that distance over the running-maximum speed (Time option)",
  "C20-2": "new C20.R5: truth table of the Float64 case of Equal over (isNaN a, isNaN b, withinULP) with helper inlining; slice and pointer cases dominated by length / nil tests (this also exposed the Equal panic repaired in 4254d7b)",
 }
+STRENGTHENED.update({
+ "R2-C03-1": "C03.R2: callee summaries are computed per ring when the caller is analysed per ring (Polygon.Centroid is even only under reversal of all rings)",
+ "R2-C03-2": "C03.R2: recursion solved by fixpoint iteration instead of assuming 'even'; adding an orientation-odd value inside a loop over member geometries makes the accumulator mixed",
+ "R2-C04-1": "C04.R1: the Extend enumeration includes operands that are empty because Max<Min on an axis with finite coordinates (every weak ordering), not only the canonical NewBounds() box",
+ "R2-C05-1": "new C05.R5 (also C06.R6, C17.R4): SSA provenance of the value Encode returns — it must not share its backing array with a sync.Pool object or a package-level variable",
+ "R2-C06-1": "C06.R6 (freshness) now reports it for the right reason; C06.R4 accepts the json.Encoder form when its error reaches the caller",
+ "R2-C07-2": "new C07.R4: C05's writer/reader layout and table obligations are re-established under C07 (premise of the re-encode clause) through Ctx.Alias",
+ "R2-C09-2": "C08.R2 gained `source-reference` (every source-side stage reads one *SR variable); new C09.R8 files the pipeline obligations under C09",
+ "R2-C12-1": "C12.R3: a MINMAXDIST-derived value handed to a library function (sort.Search…) is UNDECIDED — the boundary case MINDIST = bound is hidden in that function's convention",
+ "R2-C13-1": "new C13.R6: tolerance factors in the comparisons of the segment-intersection routine are the constant 0",
+ "R2-C14-1": "new C14.R5: C01.R2/R3's obligations on the shared clipping helper are re-established under C14",
+ "R2-C15-2": "C15.R3: both ring cursors start at anchors computed by one function of their own ring only",
+ "R2-C16-1": "new C16.R6: path rule — every return with a record and no recorded error has incremented the attribute-row counter exactly once",
+ "R2-C18-1": "new C18.R6 (dispatch): each process call is reached on the object's type alone; a pass-dependent guard is UNDECIDED",
+ "R2-C18-2": "new C18.R6 (barrier): flow fact — every iteration of the pass loop ends after Wait joined the workers it started",
+ "R2-C19-1": "new C19.R5: nothing reachable from ShortestRoute assigns to network or package state (UNDECIDED otherwise: the answer may depend on earlier queries)",
+ "R2-C19-2": "C19.R3: the route and the two totals are assigned only inside the loop over the route's links",
+ "R2-C20-1": "new C20.R7: every store of the datum-shift list is make(len(values)) filled by the parse loop, never re-sliced or replaced",
+ "R2-C20-2": "new C20.R6: no parser loop that stores into the spatial reference ranges over a map",
+})
+
 NOT_CAUGHT = {
+ "R2-C08-1": "still missed: the scale factor is removed from the wrong term in the LCC inverse (`(RH-(y-Y0))/K0` for `RH-(y-Y0)/K0`) — a formula-level slip; nothing structural distinguishes the two expressions short of composing inverse∘forward algebraically (considered: Laurent-polynomial cancellation of X0/Y0/K0; not built)",
+ "R2-C08-2": "still missed: spherical transverse Mercator takes the hemisphere from sign(y) instead of from the foot-point latitude — formula-level",
+ "R2-C09-1": "still missed: one-parallel Albers takes its cone constant from sin(lat_0) (a reused local) instead of sin(lat_1) — formula-level; comparison with the bundled proj4js source was rejected as brittle (DESIGN §7)",
+ "R2-C12-2": "still missed: MINMAXDIST under-estimated when the query lies within a box's range on an axis — the bound's arithmetic is outside the order domain",
+ "R2-C15-1": "still missed: bounding-box pre-filter in the member matching uses Bounds.Similar, which is NaN-false for the empty box (|Inf−Inf|); arithmetic on infinities is outside the rules",
  "C15-1": "still missed: the one-to-one discipline of the greedy member matching is not modelled (C15.R1 only establishes the count test); deciding it needs an abstract model of the matching loop over small member sets — see DESIGN.md §9.6",
 }
 
@@ -98,7 +138,12 @@ def main():
             f.write(f"| {m['id']} | {m['title'][:90]} | {m['first_evaluation']['verdict']} | {m['current']['verdict']} | {'; '.join(r.split()[0] for r in m['current']['rules'][:3])} |\n")
         n1 = sum(1 for m in rows if m['first_evaluation']['verdict'].startswith('caught'))
         n2 = sum(1 for m in rows if m['current']['verdict'] == 'caught')
-        f.write(f"\nFirst evaluation: {n1}/{len(rows)} reported (two of them for the wrong reason); after strengthening: {n2}/{len(rows)}.\n")
+        r1 = [m for m in rows if not m['id'].startswith('R2-')]
+        r2 = [m for m in rows if m['id'].startswith('R2-')]
+        for nm, rr in (("first batch", r1), ("second batch (written after the first round of strengthening, so it measures generalisation)", r2)):
+            a1 = sum(1 for m in rr if m['first_evaluation']['verdict'].startswith('caught'))
+            a2 = sum(1 for m in rr if m['current']['verdict'] == 'caught')
+            f.write(f"\n{nm}: first evaluation {a1}/{len(rr)} reported, now {a2}/{len(rr)}.\n")
     print(len(rows), "meta files written")
 
 if __name__ == "__main__":
